@@ -133,7 +133,7 @@ static void *thr(void *a) {
 static void on_sig(int s) { (void)s; }
 
 static void stuck_exit(const char *why) {
-	for (int k = 0; k < nthreads; k++) if (!ta[k].done) printf("STUCK %d %d %d %s\n", cur_round, k, ta[k].cur_op, why);
+	for (int k = 0; k < nthreads; k++) if (!ta[k].done && ta[k].cur_op) printf("STUCK %d %d %d %s\n", cur_round, k, ta[k].cur_op, why);
 	printf("STATE %d %llu tokens=%ld async_pending=%d\n", cur_round, (unsigned long long)(*(volatile uint64_t *)&g->dg_state),
 			atomic_load(&tokens), atomic_load(&async_pending));
 	dv_dump(stdout); fflush(stdout); _exit(0);
@@ -171,7 +171,8 @@ int main(int argc, char **argv) {
 			int alldone = 1; for (int k = 0; k < nthreads; k++) if (!ta[k].done) alldone = 0;
 			if (alldone) break;
 			usleep(1000);
-			if (j % 3 == 0) { int v = (int)((r >> (j % 40)) % (unsigned)nthreads); if (!ta[v].done) pthread_kill(th[v], SIGUSR1); }
+			// signals only early in the round: an EINTR re-arms the futex wait, which would rescue a waiter left behind
+			if (j % 3 == 0 && j < (cur_kind == 1 ? 6 : 30)) { int v = (int)((r >> (j % 40)) % (unsigned)nthreads); if (!ta[v].done) pthread_kill(th[v], SIGUSR1); }
 			long p = atomic_load(&progress);
 			if (p != last) { last = p; idle_ms = 0; } else if (++idle_ms > 4000) stuck_exit("no-progress-4s");
 		}
